@@ -98,7 +98,7 @@ func runC13(res *Result, d *Driver, tier string, seed uint64) {
 					}
 					// every way the planting run can end: on its own (synchronised before or after the exec), refused by the
 					// caller's synchronisation callback while it is already running and writing, or cancelled
-					variant := rng.Intn(5)
+					variant := []int{0, 1, 2, 2, 3}[rng.Intn(5)]
 					var rr runner.Result
 					var out string
 					switch variant {
@@ -117,8 +117,11 @@ func runC13(res *Result, d *Driver, tier string, seed uint64) {
 					planted := listDir(filepath.Join(root, m))
 					rerr := env.Reset()
 					left := listDir(filepath.Join(root, m))
-					_, inside := env.runProbe(RunSpec{Script: "sys 217 0 0 0;report cwd;exit 0"}, false)
-					_ = inside
+					// a following tenant looks at the mounts from inside — or the next planting run comes right after the Reset
+					if rng.Chance(50) {
+						_, inside := env.runProbe(RunSpec{Script: "sys 217 0 0 0;report cwd;exit 0"}, false)
+						_ = inside
+					}
 					key := fmt.Sprintf("%s /%s tree%d, the planting run %s", tb.name, m, si, []string{"ends on its own", "ends on its own (synchronised after exec)", "is refused by the synchronisation callback after exec, while it runs", "is cancelled", "ends on its own"}[variant])
 					res.Case(key+itoa(r), true, "reset-"+tb.name)
 					res.Traces++
